@@ -24,6 +24,14 @@ def main():
     if args.prop not in CHECKS:
         print('no check registered for %s' % args.prop)
         sys.exit(2)
+    # everything the library or a tool puts into "the temporary directory" (Cache() without a directory, reverse() of a
+    # Deque, SANY's unpacked modules, ...) goes under this run's scratch root, which is removed when the run ends
+    import tempfile
+    from . import envctl
+    tmp = os.path.join(envctl.scratch_root(), 'tmp')
+    os.makedirs(tmp, exist_ok=True)
+    os.environ['TMPDIR'] = tmp
+    tempfile.tempdir = tmp
     modname, prop = CHECKS[args.prop]
     mod = importlib.import_module(modname)
     try:
